@@ -11,7 +11,7 @@ Core Lean only; generic over the arithmetic (DESIGN §2.1): instantiated at `Flo
 * `xsBranch`            — which `return` is taken (180-216),
 * `fitA`, `fitB`        — the two fitting formulae (217-243),
 * `crossSection`        — the sum over shells of `get_cross_section` (259-322; the list of shells
-                          per ion is generated: `Gen.Verner.ionShells`).
+                          per ion: specification `ionShellsSpec`; the C++ switch is `Gen.Verner.ionShells`).
 -/
 namespace CMacVerif.Verner
 open CMacVerif CMacVerif.Gen.Verner
@@ -129,9 +129,26 @@ def sumLeft : List α → α
   | [] => 0.0
   | x :: xs => xs.foldl (· + ·) x
 
-/-- `VernerCrossSections::get_cross_section(ion, energy)` -/
+/-- the photoionization cross section of a tracked ion: sum of the published shell fits the
+specification `ionShellsSpec` lists (this is what the driver runs against
+`VernerCrossSections::get_cross_section(ion, energy)`) -/
 def crossSection (ion : Ion) (e : α) : α :=
+  sumLeft ((ionShellsSpec ion).map fun s => crossSectionVerner s.1 s.2.1 s.2.2 e)
+
+/-- `VernerCrossSections::get_cross_section(ion, energy)` with the shell list as coded in the
+switch of the C++ (`Gen.Verner.ionShells`, regenerated on every run) -/
+def crossSectionCoded (ion : Ion) (e : α) : α :=
   sumLeft ((ionShells ion).map fun s => crossSectionVerner s.1 s.2.1 s.2.2 e)
+
+/-- position of an ion's value in the argument list of the `FixedValueCrossSections` constructor
+(`cross_section_H_n, cross_section_He_n, cross_section_C_p1, …, cross_section_S_p3`) -/
+def Ion.argIndex : Ion → Nat
+  | .H_n => 0 | .He_n => 1 | .C_p1 => 2 | .C_p2 => 3 | .N_n => 4 | .N_p1 => 5 | .N_p2 => 6
+  | .O_n => 7 | .O_p1 => 8 | .Ne_n => 9 | .Ne_p1 => 10 | .S_p1 => 11 | .S_p2 => 12 | .S_p3 => 13
+
+/-- `FixedValueCrossSections::get_cross_section(ion, energy)` of an object constructed with the
+argument list `args`: the value given for that ion, whatever the energy -/
+def fixedCrossSection (args : List α) (ion : Ion) (_e : α) : α := args.getD ion.argIndex 0.0
 
 end
 end CMacVerif.Verner
